@@ -23,7 +23,7 @@ package verify
 //
 // Grammar (tokens contain no blanks; `|` separates the parts):
 //
-//	g proto=<name> P=<rekey>,<enforceDiff>,<pq>,<lsigVersion>,<lsigMaxSize>,<absMaxProg>,<msig>,<lmsig>,<pricing> pre=<ok|gi> n=<len>
+//	g proto=<name> m=<what the generator changed after signing, informative> P=<rekey>,<enforceDiff>,<pq>,<lsigVersion>,<lsigMaxSize>,<absMaxProg>,<msig>,<lmsig>,<pricing> pre=<ok|gi> n=<len>
 //	  | t=<txn id> wf=<0|1> ty=<type> hb=<0|1> snd=<a> rk=<a> auth=<a> sig=<S> msig=<MS> pq=<PQ> lsig=<LS>   (once per txn)
 //	  | raw=<b64>.<b64>...
 //	S  ::= - | s(<key>~<msg>) | j<n>                 msg ::= T<id> | G<prog> | MP(<a>~<prog>) | QP(<a>~<prog>) | o<n>
@@ -38,6 +38,7 @@ import (
 	"encoding/binary"
 	"errors"
 	"fmt"
+	"os"
 	"strings"
 	"testing"
 
@@ -111,7 +112,9 @@ func verifC28NewWorld(withFalcon bool) *verifC28World {
 	return w
 }
 
-func (w *verifC28World) addr(k int) basics.Address { return basics.Address(w.keys[k].SignatureVerifier) }
+func (w *verifC28World) addr(k int) basics.Address {
+	return basics.Address(w.keys[k].SignatureVerifier)
+}
 
 func (w *verifC28World) sign(k int, h crypto.Hashable) crypto.Signature {
 	s := w.keys[k].Sign(h)
@@ -324,7 +327,7 @@ func verifC28B(b bool) string {
 	return "0"
 }
 
-func verifC28Symbolize(w *verifC28World, proto protocol.ConsensusVersion, enc [][]byte) (string, bool) {
+func verifC28Symbolize(w *verifC28World, proto protocol.ConsensusVersion, enc [][]byte, label string) (string, bool) {
 	stxs, ok := verifC28Decode(enc)
 	if !ok {
 		return "", false
@@ -378,7 +381,10 @@ func verifC28Symbolize(w *verifC28World, proto protocol.ConsensusVersion, enc []
 		pre = fmt.Sprintf("%d", gi)
 	}
 	var sb strings.Builder
-	fmt.Fprintf(&sb, "g proto=%s P=%s,%s,%s,%d,%d,%d,%s,%s,%s pre=%s n=%d", verifC28ProtoName(proto),
+	if label == "" {
+		label = "none"
+	}
+	fmt.Fprintf(&sb, "g proto=%s m=%s P=%s,%s,%s,%d,%d,%d,%s,%s,%s pre=%s n=%d", verifC28ProtoName(proto), label,
 		verifC28B(params.SupportRekeying), verifC28B(params.EnforceAuthAddrSenderDiff), verifC28B(params.PQSigEnabled()), params.LogicSigVersion,
 		params.LogicSigMaxSize, params.MaxAbsoluteLogicSigProgramSize, verifC28B(params.LogicSigMsig), verifC28B(params.LogicSigLMsig),
 		verifC28B(params.TxnSizePricingEnabled()), pre, len(stxs))
@@ -676,6 +682,7 @@ type verifC28Gen struct {
 	par   config.ConsensusParams
 	ctr   uint64
 	hbRng *verifC28Rng
+	label []string // what was changed after signing (goes into the op line for the coverage statistics only)
 }
 
 type verifC28Rng struct{ r *vh.Rng }
@@ -790,7 +797,7 @@ func (g *verifC28Gen) randArgs() [][]byte {
 func (g *verifC28Gen) randMsigAcct() verifC28Acct {
 	r := g.r
 	n := 1 + r.Intn(5)
-	if r.Chance(2) {
+	if r.Intn(200) == 0 {
 		n = 250 + r.Intn(6) // 250..255 (maxMultisig and the decoder's bound)
 	}
 	a := verifC28Acct{kind: "msig", ver: 1}
@@ -969,6 +976,7 @@ type verifC28Slot struct {
 // one group: accounts, senders (rekeyed or not), group id, signatures, then post-signing changes
 func (g *verifC28Gen) group() [][]byte {
 	r := g.r
+	g.label = nil
 	n := 1
 	switch x := r.Intn(100); {
 	case x < 1:
@@ -1059,6 +1067,7 @@ func (g *verifC28Gen) group() [][]byte {
 			var out transactions.SignedTxn
 			if protocol.Decode(m, &out) == nil {
 				enc[i] = m
+				g.label = append(g.label, "byte")
 				break
 			}
 		}
@@ -1146,8 +1155,10 @@ func (g *verifC28Gen) mutate(st *transactions.SignedTxn, s *verifC28Slot, n int)
 	prog := logic.Program(st.Lsig.Logic)
 	switch x := r.Intn(100); {
 	case x < 22: // the transaction changes after signing
+		g.label = append(g.label, "txn")
 		st.Txn = g.otherTxn(st.Txn)
 	case x < 30: // a second kind of authorization is attached (valid for the authorizer when it can be)
+		g.label = append(g.label, "addkind")
 		a := verifC28Authorizer(st)
 		k := r.Intn(verifC28NumKeys)
 		for i := range g.w.keys {
@@ -1171,6 +1182,7 @@ func (g *verifC28Gen) mutate(st *transactions.SignedTxn, s *verifC28Slot, n int)
 			}
 		}
 	case x < 36: // AuthAddr changes
+		g.label = append(g.label, "authaddr")
 		switch r.Intn(3) {
 		case 0:
 			st.AuthAddr = basics.Address{}
@@ -1180,6 +1192,7 @@ func (g *verifC28Gen) mutate(st *transactions.SignedTxn, s *verifC28Slot, n int)
 			st.AuthAddr = g.w.addr(r.Intn(verifC28NumKeys))
 		}
 	case x < 46: // plain signature damaged / dropped / from another key / over another message
+		g.label = append(g.label, "sig")
 		switch r.Intn(5) {
 		case 0:
 			st.Sig[r.Intn(64)] ^= 1 << uint(r.Intn(8))
@@ -1193,8 +1206,10 @@ func (g *verifC28Gen) mutate(st *transactions.SignedTxn, s *verifC28Slot, n int)
 			copy(st.Sig[:], r.Bytes(64))
 		}
 	case x < 64:
+		g.label = append(g.label, "msig")
 		g.mutateMsig(&st.Msig, st.Txn)
 	case x < 74: // logic sig: program or arguments change
+		g.label = append(g.label, "prog")
 		switch r.Intn(5) {
 		case 0:
 			if len(st.Lsig.Logic) > 0 {
@@ -1212,6 +1227,7 @@ func (g *verifC28Gen) mutate(st *transactions.SignedTxn, s *verifC28Slot, n int)
 			st.Lsig.Args = [][]byte{r.Bytes(1001 + r.Intn(600))}
 		}
 	case x < 86: // the delegation changes
+		g.label = append(g.label, "deleg")
 		switch r.Intn(7) {
 		case 0:
 			st.Lsig.Sig = g.w.sign(r.Intn(verifC28NumKeys), &prog)
@@ -1231,6 +1247,7 @@ func (g *verifC28Gen) mutate(st *transactions.SignedTxn, s *verifC28Slot, n int)
 			}
 		}
 	default: // post-quantum proof changes
+		g.label = append(g.label, "pq")
 		for _, p := range []*transactions.PQSig{&st.PQsig, &st.Lsig.PQsig} {
 			if verifC28PQBlank(p) {
 				continue
@@ -1274,11 +1291,30 @@ func verifC28Generate(seed uint64, n int) []string {
 		g.proto = verifC28Protos[pi].v
 		g.par = config.Consensus[g.proto]
 		enc := g.group()
-		if line, ok := verifC28Symbolize(w, g.proto, enc); ok {
+		if line, ok := verifC28Symbolize(w, g.proto, enc, strings.Join(g.label, "+")); ok {
 			lines = append(lines, line)
 		}
 	}
 	return lines
+}
+
+// verifC28Corpus: op lines of $VERIF_C28_CORPUS (set by checks/C28.py to corpus/C28/verify.ops), if any
+func verifC28Corpus() []string {
+	p := os.Getenv("VERIF_C28_CORPUS")
+	if p == "" {
+		return nil
+	}
+	b, err := os.ReadFile(p)
+	if err != nil {
+		return nil
+	}
+	var out []string
+	for _, l := range strings.Split(string(b), "\n") {
+		if strings.HasPrefix(l, "g ") {
+			out = append(out, l)
+		}
+	}
+	return out
 }
 
 func TestVerifC28(t *testing.T) {
@@ -1286,7 +1322,8 @@ func TestVerifC28(t *testing.T) {
 	defer out.Close()
 	lines, replay := vh.ReplayOps()
 	if !replay {
-		lines = verifC28Generate(vh.Seed(), vh.Budget(6000, 120000))
+		// corpus first (witness inputs of past disagreements / self-test mutations), then the seeded random groups
+		lines = append(verifC28Corpus(), verifC28Generate(vh.Seed(), vh.Budget(6000, 60000))...)
 	}
 	for _, l := range lines {
 		out.Emit(l, verifC28Exec(l))
